@@ -293,9 +293,9 @@ package main
 // a status fetcher: runs beside the handlers (C20), so it may read only what a mutex guards (or what is never written)
 //@ func (*bgpController).PeersForService
 //@   concurrent
-//@   lockonly
 //@   requires c != nil && lockstate(c.activeAdsMutex) == 0
 //@   ensures lockstate(c.activeAdsMutex) == 0 && lockframe(c.activeAdsMutex)
+//@   ensures [lookup] result == c.activeAds[key]
 //@   modifies $held
 // notifyAdsChanged (abstracted mode): the two indexes it builds (prefix -> Services producing it, Service -> peers offered
 // one of its prefixes; C05's "reported as advertised to exactly the peers that are offered at least one of its prefixes")
